@@ -37,8 +37,13 @@ connection task or a stream itself, which IS checked: no tonic step touches `cal
 `C13_outcomes_truthful` holds by construction of `produce` / `deliver`.  The trusted part is one
 named object, `HyperGracefulContract` (Lemmas/ShutdownContract): `C13_hyper_contract_of_model`,
 `C13_safety_under_hyper_contract`, `C13_every_maximal_run_resolves_under_hyper_contract` state
-that the theorems hold for ANY hyper satisfying it.  Whether the real hyper does is exercised by
-the correspondence runs only.
+that the theorems hold for a hyper satisfying it.  HOW MUCH FREEDOM THAT LEAVES (review round 3): the
+whole contract pins three of hyper's five guards (`connDone`, `finalGoaway`, `deliver`) to exactly the
+model's and lets the other two (`handshake`, `acceptStream`) only be restrictions of the model's, so it is
+the NAMED STATEMENT of what is assumed of hyper rather than a generalisation; the safety half alone
+(`HyperSafety`, one-directional) is genuinely more general — it covers every hyper whose behaviours are a
+subset of the model's.  Whether the real hyper satisfies the contract is exercised by the correspondence
+runs only.
 -/
 namespace C13
 open Shutdown Spec.Shutdown
@@ -200,7 +205,7 @@ theorem C13_receiver_count_is_open_connections {b a : Bool} {s : State}
     | true => exact Or.inr (this cn hcn ha)
 
 /-- "resolve enabled iff the accept loop has ended and the receiver count is 0": the exact
-enabling condition of the `resolve` step. -/
+enabling condition of the `resolve` step. (Transcription lemma: it holds by unfolding the model's definition, so it pins the model's shape for the correspondence run — its assurance about tonic is the tie, not this proof.) -/
 theorem C13_resolve_enabled_iff (s : State) :
     (step s .resolve).isSome = true ↔
       s.afterDone = true ∧ s.resolved = false ∧ (s.cfgGraceful = true → receiverCount s = 0) := by
@@ -473,7 +478,8 @@ theorem C13_hyper_contract_of_model :
     HyperGracefulContract hyperModel ∧ ∀ s l, stepH hyperModel s l = step s l :=
   ⟨hyperModel_contract, stepH_hyperModel⟩
 
-/-- SAFETY for any hyper that satisfies the safety half of the contract: every state the server
+/-- SAFETY for any hyper that satisfies the safety half of the contract (every hyper whose behaviours
+are among the model's): every state the server
 can reach over such a hyper is a reachable state of the model, hence the clauses (a truth),
 (b), (c) hold in it. -/
 theorem C13_safety_under_hyper_contract {H : Hyper} (hc : HyperSafety H) {b a : Bool} {s : State}
@@ -487,7 +493,8 @@ theorem C13_safety_under_hyper_contract {H : Hyper} (hc : HyperSafety H) {b a : 
   subst hb
   exact C13_no_accept_after_signal hr
 
-/-- LIVENESS for any hyper that satisfies the whole contract: every maximal run of the server's
+/-- LIVENESS for a hyper that satisfies the whole contract (which leaves only `handshake` and
+`acceptStream` free to be more restrictive than the model's — see the header): every maximal run of the server's
 own steps OVER THAT HYPER, from a reachable state in which shutdown has been requested and all
 connections are closeable, ends with the serve future resolved (and is at most `weight s` long). -/
 theorem C13_every_maximal_run_resolves_under_hyper_contract {H : Hyper}
